@@ -63,6 +63,8 @@ def apply_op(ds, op, aux=None, args=None):
     wsrc = aux if aux is not None else ds
     if op.get("scalar_winds"):
         wsrc = {"wspd": 12.5, "wdir": 215.0, "dpt": 35.0}   # plain floats instead of DataArrays
+    if kw.get("depth") == "dpt":
+        kw["depth"] = wsrc["dpt"]           # water depth given as the dataset's own DataArray
     if m in SIMPLE_STATS or m in ("momf", "celerity", "wavelen"):
         return getattr(spec, m)(**kw)
     if m == "momd":
@@ -110,6 +112,8 @@ def apply_op(ds, op, aux=None, args=None):
         matplotlib.use("Agg")
         import matplotlib.pyplot as plt
 
+        if "subplot_kws" in args:
+            kw["subplot_kws"] = args["subplot_kws"]      # pass-through keyword dictionary owned by the caller
         try:
             spec.plot(**kw)
         finally:
@@ -129,7 +133,7 @@ def gen_op(rng, recipe, pool="all"):
     fr = None
     groups = []
     if pool in ("all", "stats"):
-        groups += ["stat"] * 6 + ["stat_kw", "stats", "split", "scale"]
+        groups += ["stat"] * 6 + ["stat_kw", "stats", "split", "scale", "depthfn"]
     if pool in ("all", "transform") and has_dir:
         groups += ["smooth", "rotate", "interp"]
     if pool in ("all", "partition") and has_dir and nd >= 3 and nf >= 3:
@@ -158,8 +162,17 @@ def gen_op(rng, recipe, pool="all"):
     if g == "stat":
         names = [n for n in SIMPLE_STATS if has_dir or n not in NEEDS_DIR]
         return {"m": rng.choice(names), "via": via}
+    if g == "depthfn":
+        # statistics that take the water depth: a number, or the dataset's own depth variable
+        m = rng.choice(["celerity", "celerity", "wavelen"] + (["uss_x", "mss"] if has_dir else ["mss"]))
+        depth = rng.choice(["dpt", "dpt", 25.0, 3000.0]) if m in ("celerity", "wavelen") else rng.choice([15.0, 2500.0])
+        return {"m": m, "via": via, "kw": {"depth": depth}}
     if g == "stat_kw":
-        c = rng.choice(["hs", "tp", "momf", "momd", "alpha", "gamma", "fdspr", "mss"])
+        c = rng.choice(["hs", "tp", "momf", "momd", "alpha", "gamma", "fdspr", "mss", "celerity", "celerity", "uss"])
+        if c == "celerity":
+            return {"m": rng.choice(["celerity", "wavelen"]), "via": via, "kw": {"depth": rng.choice(["dpt", "dpt", 25.0, 3000.0])}}
+        if c == "uss" and has_dir:
+            return {"m": rng.choice(["uss", "uss_x", "uss_y"]), "via": via, "kw": {"depth": rng.choice([15.0, 2500.0])}}
         if c == "hs":
             return {"m": "hs", "via": via, "kw": {"tail": False}}
         if c == "tp":
